@@ -591,3 +591,77 @@ def get_subtree(self, subtree_root):
     new.update()
     return new
 """
+
+REFERENCE['phyclone.process_trace.consensus.relabel'] = """
+def relabel(graph):
+    result = nx.DiGraph()
+    for root in roots(graph):
+        _relabel(root, result, graph)
+    return result
+"""
+
+REFERENCE['phyclone.process_trace.consensus.roots'] = """
+def roots(graph):
+    return [n for n in graph.nodes() if len(graph.in_edges(n)) == 0]
+"""
+
+REFERENCE['phyclone.process_trace.consensus.clean_tree'] = """
+def clean_tree(tree, data=None):
+    node_map = {}
+    for new_node, old_node in enumerate(nx.dfs_preorder_nodes(tree)):
+        node_map[old_node] = new_node
+    new_tree = nx.relabel_nodes(tree, node_map)
+    idx_map = {}
+    for data_points, node in node_map.items():
+        idx_map[node] = sorted(data_points)
+    nx.set_node_attributes(new_tree, name='idxs', values=idx_map)
+    if data is not None:
+        name_map = defaultdict(list)
+        for node in idx_map:
+            for idx in idx_map[node]:
+                name_map[node].append(data[idx].name)
+        nx.set_node_attributes(new_tree, name='names', values=name_map)
+    return new_tree
+"""
+
+REFERENCE['phyclone.process_trace.process_trace.from_dict_nx'] = """
+def from_dict_nx(data, tree_dict):
+    new = Tree(data[0].grid_size)
+    data = dict(zip([x.idx for x in data], data))
+    root_node_name = new.root_node_name
+    for node in tree_dict['graph'].keys():
+        if node == root_node_name:
+            continue
+        new._add_node(node)
+    for parent, children in tree_dict['graph'].items():
+        parent_idx = new._node_indices[parent]
+        for child in children.keys():
+            child_idx = new._node_indices[child]
+            new._graph.add_edge(parent_idx, child_idx, None)
+    for idx, node in tree_dict['labels'].items():
+        new._internal_add_data_point_to_node(True, data[idx], node)
+    new.update()
+    return new
+"""
+
+REFERENCE['phyclone.process_trace.process_trace.get_tree_from_consensus_graph'] = """
+def get_tree_from_consensus_graph(data, graph):
+    labels = {}
+    tmp_tree = Tree(data[0].grid_size)
+    outlier_node_name = tmp_tree.outlier_node_name
+    for node in graph.nodes:
+        for idx in graph.nodes[node]['idxs']:
+            labels[idx] = node
+    for x in data:
+        if x.idx not in labels:
+            labels[x.idx] = outlier_node_name
+    graph = graph.copy()
+    nodes = list(graph.nodes)
+    root_node_name = tmp_tree.root_node_name
+    for node in nodes:
+        if len(list(graph.predecessors(node))) == 0:
+            graph.add_edge(root_node_name, node)
+    tree = from_dict_nx(data, {'graph': nx.to_dict_of_dicts(graph), 'labels': labels})
+    tree.update()
+    return tree
+"""
